@@ -157,7 +157,7 @@ def create_single_mode_squeezing_matrix(
     previous_previous = first_row
     previous = second_row
 
-    for col in connector.range(2, cutoff):
+    for col in connector.range(2, max(2, cutoff)):
         current = (
             sechr_sqrt_indices * previous[roll_index]
             + A_conj_sqrt_indices[col - 1] * previous_previous
